@@ -300,7 +300,8 @@ def main():
 
 
 def write_evidence(prop, tier, seed, meta, m, wall, build_s, cached, cdir, violations, known):
-    os.makedirs(os.path.join(V, "evidence"), exist_ok=True)
+    evdir = os.environ.get("VERIF_EVIDENCE_DIR", os.path.join(V, "evidence"))  # runs against seeded changes write elsewhere
+    os.makedirs(evdir, exist_ok=True)
     search_s = max(wall - build_s, 0.001)
     try:
         xstats = open(os.path.join(cdir, "xform.stats")).read().strip()
@@ -337,7 +338,7 @@ def write_evidence(prop, tier, seed, meta, m, wall, build_s, cached, cdir, viola
         "wall_s": round(wall, 2),
         "violations": violations,
     }
-    with open(os.path.join(V, "evidence", prop + ".json"), "w") as fh:
+    with open(os.path.join(evdir, prop + ".json"), "w") as fh:
         json.dump(ev, fh, indent=1, sort_keys=True)
 
 
